@@ -22,9 +22,14 @@ func (s *service) CredentialVerificationServiceInitFlow(ctx context.Context, req
 	ctx, cancel := context.WithTimeout(ctx, time.Second*10)
 	defer cancel()
 
+	accountGroup := s.getAccountGroup()
+	if accountGroup == nil {
+		return nil, errcode.ErrCode_ErrGroupMissing
+	}
+
 	// TODO: allow selection of alt-scoped keys
 	// TODO: avoid exporting account keys
-	pkRaw, err := s.accountGroupCtx.ownMemberDevice.Member().Raw()
+	pkRaw, err := accountGroup.ownMemberDevice.Member().Raw()
 	if err != nil {
 		return nil, errcode.ErrCode_ErrInvalidInput
 	}
@@ -33,7 +38,7 @@ func (s *service) CredentialVerificationServiceInitFlow(ctx context.Context, req
 		return nil, errcode.ErrCode_ErrInvalidInput
 	}
 
-	url, err := client.Init(ctx, request.Link, cryptoutil.NewFuncSigner(s.accountGroupCtx.ownMemberDevice.Member(), s.accountGroupCtx.ownMemberDevice.MemberSign))
+	url, err := client.Init(ctx, request.Link, cryptoutil.NewFuncSigner(accountGroup.ownMemberDevice.Member(), accountGroup.ownMemberDevice.MemberSign))
 	if err != nil {
 		return nil, errcode.ErrCode_ErrInternal.Wrap(err)
 	}
@@ -53,12 +58,17 @@ func (s *service) CredentialVerificationServiceCompleteFlow(ctx context.Context,
 		return nil, errcode.ErrCode_ErrInvalidInput.Wrap(fmt.Errorf("a verification flow needs to be started first"))
 	}
 
+	accountGroup := s.getAccountGroup()
+	if accountGroup == nil {
+		return nil, errcode.ErrCode_ErrGroupMissing
+	}
+
 	credentials, identifier, parsedCredential, err := client.Complete(request.CallbackUri)
 	if err != nil {
 		return nil, errcode.ErrCode_ErrInternal.Wrap(err)
 	}
 
-	_, err = s.accountGroupCtx.metadataStore.SendAccountVerifiedCredentialAdded(ctx, &protocoltypes.AccountVerifiedCredentialRegistered{
+	_, err = accountGroup.metadataStore.SendAccountVerifiedCredentialAdded(ctx, &protocoltypes.AccountVerifiedCredentialRegistered{
 		VerifiedCredential: credentials,
 		RegistrationDate:   parsedCredential.Issued.UnixNano(),
 		ExpirationDate:     parsedCredential.Expired.UnixNano(),
@@ -75,8 +85,13 @@ func (s *service) CredentialVerificationServiceCompleteFlow(ctx context.Context,
 }
 
 func (s *service) VerifiedCredentialsList(request *protocoltypes.VerifiedCredentialsList_Request, server protocoltypes.ProtocolService_VerifiedCredentialsListServer) error {
+	accountGroup := s.getAccountGroup()
+	if accountGroup == nil {
+		return errcode.ErrCode_ErrGroupMissing
+	}
+
 	now := time.Now().UnixNano()
-	credentials := s.accountGroupCtx.metadataStore.ListVerifiedCredentials()
+	credentials := accountGroup.metadataStore.ListVerifiedCredentials()
 
 	for _, credential := range credentials {
 		if request.FilterIdentifier != "" && credential.Identifier != request.FilterIdentifier {
